@@ -34,7 +34,7 @@ def make_pool(rng, size):
     pool = []
     # names that are prefixes of each other or end in characters of "_no_prune" are legal and hostile to string surgery on keys
     names = ["g%d" % i for i in range(12)] + ["robot_1_a", "Game_B2", "x", "a_b_c_9", "broken", "no_route", "gam", "game_one",
-                                               "open", "prune_no", "e", "n_o", "game", "game_o", "run", "u_p"]
+                                               "open", "prune_no", "e", "n_o", "game", "game_o", "run", "u_p", "solo_no_prune", "w_no_prune"]
     rng.shuffle(names)
     for i in range(size):
         r = rng.random()
@@ -62,7 +62,7 @@ def make_pool(rng, size):
         else:
             base = games.to_solver(c09.base_game(rng))
             eds = list(c09.edits(base))
-            rule, pc, g = rng.choice(eds)
+            rule, pc, g = rng.choice(eds) if rng.random() > 0.08 else [e for e in eds if e[0] == "empty-game"][0]
             pool.append((names[i], "malformed:" + rule, g))
     # a game may carry its own prune_states key (it is a constructor parameter); the batch run must still do both modes
     for i, (n_, k_, g_) in enumerate(pool):
